@@ -76,6 +76,11 @@ func (enc *VP8Encoder) encodeFrame() {
 
 		// 6. Record tokens for the coefficient data (skip if no coefficients).
 		if info.Skip {
+			// A skipped MB emits no tokens, but its (empty) token range must
+			// still be recorded: EmitTokensPartitioned reads mbStart for
+			// every MB, and a stale entry (from a previous pass, or from a
+			// previous image when the encoder is pooled) would be used.
+			enc.tokens.MarkMBStart(it.MBIdx)
 			// Mirror decoder's skip handling: clear NZ context.
 			enc.topNz[it.X] = 0
 			enc.leftNz = 0
